@@ -63,7 +63,7 @@ def run_shard(engine, params, base, first, count, prop, out=None):
     agg = {
         "engine": engine, "cases": 0, "crashed": 0, "counters": Counter(), "stats": Counter(),
         "nontrivial_hashes": [], "viol": [], "viol_count": Counter(), "samples": [], "crash_mech": Counter(),
-        "kinds": Counter(), "sigs": 0, "steps": 0, "max_burst": 0, "wall": 0.0, "extra": {},
+        "kinds": Counter(), "viol_keys": {}, "sigs": 0, "steps": 0, "max_burst": 0, "wall": 0.0, "extra": {},
     }
     devnull = open(os.devnull, "w")
     t0 = time.time()
@@ -110,10 +110,13 @@ def run_shard(engine, params, base, first, count, prop, out=None):
             if k.startswith(prop + "|"):
                 agg["viol_count"][k] += v
         for v in r.get("viol", []):
-            if v["property"] == prop and len(agg["viol"]) < 8:
-                v = dict(v)
-                v["spec"] = spec
-                agg["viol"].append(v)
+            if v["property"] == prop:
+                key = f"{v['property']}|{v['check']}|{v['mechanism']}"
+                if agg["viol_keys"].get(key, 0) < 1 and len(agg["viol"]) < 60:
+                    agg["viol_keys"][key] = agg["viol_keys"].get(key, 0) + 1
+                    v = dict(v)
+                    v["spec"] = spec
+                    agg["viol"].append(v)
         if len(agg["samples"]) < 2 and (nt.get(prop) or i == first + count - 1):
             agg["samples"].append({"spec": spec, "ops": r.get("sample_ops", [])[:30], "notes": r.get("sample_notes")})
         for k, v in r.get("extra", {}).items():
